@@ -547,8 +547,8 @@ class SArr(rnp.ndarray):
         key = _fix_key(key)
         if isinstance(val, rnp.ndarray) and _nd_dtype(val) != object:
             val = val.astype(object)
-        elif isinstance(val, SYM):
-            val = box(val)
+        elif isinstance(val, rnp.ndarray) and val.shape == () :
+            val = val[()]           # store the element, never a 0-d array object
         rnp.ndarray.__setitem__(self, key, val)
 
     # numpy-like attributes computed on the logical content
